@@ -10,7 +10,7 @@ From the capture FILE to what the main loop iterates over: the glue of `run()` (
                                                                              non-empty payload)
 
 An exception anywhere in this loop ends the run before anything is written (the output is written after the loop), so the
-whole function is `Except`: the first failing item decides.
+whole function is `Except`: the first failing step decides, in the order the generator and the loop body alternate.
 
 `Pkt.tag` is the index of the item in the capture (DSB items count), `Info` is what `Pipeline` reads through the tag: the TCP
 sequence number, the time stamp in integer microseconds (`Container.usOfFloat` of the double `float(ts)` — executable only),
@@ -108,10 +108,18 @@ def go (hc : Keylog.HexClass) (c : Bool) : Nat → List Container.Item → Excep
         | .error e => .error e
         | .ok (xs, is) => .ok (.frame p :: xs, (tag, i) :: is)
 
+/-- The reader is a generator: the loop body runs on every item BEFORE the reader looks at the next block, so an item that
+    raises wins over damage further down the file (`Container.readPrefix`: what was yielded, and how the generator ended). -/
 def itemsWith (hc : Keylog.HexClass) (c legacy : Bool) (file : Bytes) : Except Err Out :=
-  match Container.read legacy file with
+  match Container.readPrefix legacy file with
   | .error e => .error (.container e)
-  | .ok its => go hc c 0 its
+  | .ok (its, ended) =>
+    match go hc c 0 its with
+    | .error e => .error e
+    | .ok out =>
+      match ended with
+      | none => .ok out
+      | some e => .error (.container e)
 
 def lookup (is : List (Nat × Pipeline.Info)) (tag : Nat) : Pipeline.Info :=
   ((is.find? (·.1 == tag)).map (·.2)).getD default
